@@ -147,6 +147,8 @@ type world struct {
 	slash0       bool
 	v6           bool
 	namedPortPct int
+	mutW         []int // per-run (swarm) weights of the item mutation kinds
+	kindW        []int // per-run weights of item kinds
 	selDepth     int
 
 	targets []target
@@ -402,11 +404,7 @@ func (w *world) mutateItem(it *itemDef) *itemState {
 	st := &itemState{labels: copyLabels(old.labels), nilLabels: old.nilLabels,
 		parents: append([]string(nil), old.parents...), nets: append([]netip.Prefix(nil), old.nets...),
 		ports: append([]portDef(nil), old.ports...)}
-	wts := []int{26, 12, 16, 8, 6, 8, 10, 6, 8}
-	if !w.c04 {
-		wts = []int{40, 20, 25, 0, 0, 15, 0, 0, 0}
-	}
-	switch src.Weighted(wts, "item_mut") {
+	switch src.Weighted(w.mutW, "item_mut") {
 	case 0: // set one label
 		st.labels[w.names[src.Intn(len(w.names), "item_label_k")]] = w.vals[src.Intn(len(w.vals), "item_label_v")]
 	case 1: // drop one label
@@ -689,9 +687,9 @@ func run(r *core.R) {
 		w.opPar = nPar - 1
 	}
 	nSets := src.Range(2, 8, "n_sets")
-	nOps := src.Range(8, 70, "n_ops")
+	nOps := src.Range(10, 120, "n_ops")
 	if thorough {
-		nOps = src.Range(8, 160, "n_ops_thorough")
+		nOps = src.Range(10, 250, "n_ops_thorough")
 	}
 	w.viaOnUpdate = src.Chance(500, "via_onupdate")
 	w.inplace = src.Chance(350, "inplace_selector_change")
@@ -703,8 +701,30 @@ func run(r *core.R) {
 		w.hostBits = src.Chance(300, "host_bits")
 		w.slash0 = src.Chance(400, "slash0")
 		w.v6 = src.Chance(600, "ipv6")
-		w.namedPortPct = src.Intn(7, "named_port_share") * 10
+		w.namedPortPct = []int{30, 0, 60, 90}[src.Intn(4, "named_port_share")]
 	}
+	// swarm: every run emphasises another mix of mutation kinds and item kinds
+	swarm := func(base []int, lbl string) []int {
+		out := make([]int, len(base))
+		sum := 0
+		for i, b := range base {
+			out[i] = b * []int{1, 0, 3, 6}[src.Intn(4, lbl)]
+			sum += out[i]
+		}
+		if sum == 0 {
+			copy(out, base)
+		}
+		return out
+	}
+	if w.c04 {
+		w.mutW = swarm([]int{26, 12, 16, 8, 6, 8, 10, 6, 8}, "swarm_mut")
+		w.kindW = swarm([]int{5, 2, 3}, "swarm_kind")
+	} else {
+		w.mutW = swarm([]int{40, 20, 25, 0, 0, 15, 0, 0, 0}, "swarm_mut")
+		w.kindW = []int{5, 2, 3}
+	}
+	r.Cfg("swarm_mut", fmt.Sprint(w.mutW))
+	r.Cfg("swarm_kind", fmt.Sprint(w.kindW))
 	r.Cfg("n_names", nNames)
 	r.Cfg("n_vals", nVals)
 	r.Cfg("n_items", nItems)
@@ -724,7 +744,7 @@ func run(r *core.R) {
 
 	for i := 0; i < nItems; i++ {
 		it := &itemDef{idx: i}
-		it.kind = src.Weighted([]int{5, 2, 3}, "item_kind")
+		it.kind = src.Weighted(w.kindW, "item_kind")
 		it.name = fmt.Sprintf("%s%d", kindNames[it.kind], i)
 		switch it.kind {
 		case kindWEP:
